@@ -10,14 +10,14 @@ TECHNIQUE = "explicit-state BFS over a real ReactorBase (harness clock, runUntil
 RULE = ("BFS over histories of callLater(d in {0,1,2}) with an optional one-step script run by the call itself "
         "(callLater from inside; cancel / reset sooner / reset later / delay +/- of the oldest or newest other "
         "pending call), cancel(i), reset(i, {0,1,3}), delay(i, {-1,+1,+2}) and advance({0,1,2,8}) + one iteration "
-        "(runUntilCurrent then timeout) from three initial states: empty; 51 far-future calls inserted into the "
+        "(runUntilCurrent then timeout) from four initial states: empty; 51 far-future calls inserted into the "
         "heap and then cancelled (compaction armed); 60 cancelled + 10 live calls interleaved in a non-sorted heap "
-        "(two deep live calls are targets). Every transition runs on the real reactor; each run event, "
+        "(two deep live calls are targets); four live calls in the heap whose root carries a positive delayed_time. Every transition runs on the real reactor; each run event, "
         "getDelayedCalls() after every operation and inside every running call, and timeout() after every "
         "iteration are compared with a dict-of-times reference. non-trivial = distinct (state, exercised case) "
         "pairs for transitions that ran a call, rescheduled or cancelled a queued/staged call, or ran a script")
-BOUNDS = {"quick": "<= 4 live user calls, <= 1 scripted call per history; depth 5 (empty), 4 (armed-51), 4 (mixed 60+10)",
-          "thorough": "<= 4 live user calls, <= 2 scripted calls per history; depth 6 (empty), 5 (armed-51), 5 (mixed 60+10)"}
+BOUNDS = {"quick": "<= 4 live user calls, <= 1 scripted call per history; depth 5 (empty), 4 (armed-51), 4 (mixed 60+10), 3 (warm heap of 4)",
+          "thorough": "<= 4 live user calls, <= 2 scripted calls per history; depth 6 (empty), 5 (armed-51), 5 (mixed 60+10), 4 (warm heap of 4)"}
 ASSUMPTIONS = [
     "integer times: the reference and the reactor compute the same sums exactly",
     "canonical state = pending calls in creation order (time relative to now, script, flags) + the real heap and "
@@ -29,8 +29,9 @@ ASSUMPTIONS = [
 ]
 MIN = {"quick": {"states": 1, "nontrivial": 1, "outcomes": 1}}
 
-INITS = ["empty", "armed51", "mixed"]
-DEPTH = {"quick": {"empty": 5, "armed51": 4, "mixed": 4}, "thorough": {"empty": 6, "armed51": 5, "mixed": 5}}
+INITS = ["empty", "armed51", "mixed", "warm"]
+DEPTH = {"quick": {"empty": 5, "armed51": 4, "mixed": 4, "warm": 3},
+         "thorough": {"empty": 6, "armed51": 5, "mixed": 5, "warm": 4}}
 SCRIPTED = {"quick": 1, "thorough": 2}
 CAP = 4
 SCRIPT_IDS = tuple(range(1, 12))   # _timers.SCRIPTS[1..11]
@@ -58,6 +59,16 @@ def make(init):
         tm.advance(0)
         for dc in raw:
             dc.cancel()
+    elif init == "warm":
+        # four targetable calls already in the heap, the root carrying a positive delayed_time:
+        # heap [A(time 1, +2 -> 3), B(1), C(3), D(3)]
+        a = tm.new_call(1, None, True, False)
+        tm.new_call(1, None, True, False)
+        for _ in range(2):
+            c = tm.new_call(2, None, True, False)
+            tm.op_delay(c, 1)
+        tm.advance(0)
+        tm.op_delay(a, 2)
     tm.epoch = 0
     tm.ops = 0
     del tm.runlog[:]
